@@ -842,3 +842,115 @@ func genDeliver(r *rng, k int) *scenario {
 	}
 	return sc
 }
+
+// ---- C05: sequences of posts to the same and to different outboxes, against one evolving world -----------------
+
+func listing(p jmap) []interface{} {
+	switch x := p["orderedItems"].(type) {
+	case nil:
+		return nil
+	case []interface{}:
+		return x
+	default:
+		return []interface{}{x}
+	}
+}
+
+// runSeq runs 1..8 posts and returns the executed (scenario, result) pairs; histories go to the emitter.
+func runSeq(r *rng, k int, em *emitter) (scs []*scenario, ress []runResult) {
+	w := baseWorld(r)
+	cfg := defaultCfg()
+	if r.chance(1, 4) {
+		cfg.Federating = false
+	}
+	owners := []string{"alice", "bob"}
+	init := map[string][]interface{}{}
+	for _, o := range owners {
+		ob := outboxOf(actorID(local, o))
+		var l []interface{}
+		for i := 0; i < r.intn(3); i++ {
+			l = append(l, fmt.Sprintf("%s/old/%s/%d", local, o, i))
+		}
+		if len(l) > 0 {
+			w.Outboxes[ob]["orderedItems"] = one(l)
+		}
+		init[ob] = l
+	}
+	accepted := map[string][]string{}
+	tainted := map[string]bool{}
+	n := 1 + r.intn(8)
+	for j := 0; j < n; j++ {
+		owner := pick(r, owners)
+		actor := actorID(local, owner)
+		ob := outboxOf(actor)
+		ty := pick(r, []string{"Note", "Create", "Like", "Block", "Follow", "Listen", "Announce", "Delete", "Add"})
+		var body jmap
+		switch ty {
+		case "Note":
+			body = jmap{"@context": asCtx, "type": "Note", "content": fmt.Sprintf("s%d-%d", k, j), "to": pick(r, remoteActors)}
+		case "Create":
+			body = jmap{"@context": asCtx, "type": "Create", "actor": actor, "object": jmap{"type": "Note", "content": fmt.Sprintf("s%d-%d", k, j)}, "to": pick(r, remoteActors)}
+		case "Delete":
+			body = jmap{"@context": asCtx, "type": "Delete", "actor": actor, "object": fmt.Sprintf("%s/notes/%d", local, 1+r.intn(3)), "to": pick(r, remoteActors)}
+		case "Add":
+			body = jmap{"@context": asCtx, "type": "Add", "actor": actor, "object": pick(r, remoteActors), "target": local + "/cols/1"}
+		default:
+			body = jmap{"@context": asCtx, "type": ty, "actor": actor, "object": fmt.Sprintf("%s/notes/%d", remote, 10+r.intn(4)), "to": pick(r, remoteActors)}
+		}
+		if r.chance(1, 8) && ty != "Note" {
+			delete(body, "object") // answered 400: not accepted, must not be listed
+		}
+		w.NewIDBase = fmt.Sprintf("%s/new/s%d-%d", local, k, j)
+		sc := outboxScenario("seq:"+ty, w, cfg, body)
+		sc.Path = "/users/" + owner + "/outbox"
+		if r.chance(1, 3) {
+			sc.Entry = "send"
+			sc.Send = body
+			sc.Body = nil
+			sc.Cfg.Federating = true
+		}
+		if r.chance(1, 4) { // one fallible call of this post fails
+			sc.Faults = []int{r.intn(40)}
+		}
+		res := runScenario(sc)
+		scs = append(scs, sc)
+		ress = append(ress, res)
+		ok201 := false
+		for _, st := range res.Statuses {
+			if st == 201 {
+				ok201 = true
+			}
+		}
+		id := ""
+		if sc.Entry == "send" {
+			if res.Result == "ok" && res.Sent != nil {
+				id, _ = res.Sent["id"].(string)
+			}
+		} else if ok201 && res.Result == "ok" {
+			for _, e := range res.Trace {
+				if e.Kind == "setheader" && e.Name == "Location" {
+					id = e.Strs[0]
+				}
+			}
+		}
+		if id != "" {
+			accepted[ob] = append(accepted[ob], id)
+		} else {
+			// a post that fails after its outbox write (delivery error) is listed although the client saw an error:
+			// such a history is not a sequence of accepted posts and is not judged by the listing equation
+			for _, e := range res.Trace {
+				if e.Kind == "db" && e.Name == "SetOutbox" && e.Ans.Kind == "ok" {
+					tainted[ob] = true
+				}
+			}
+		}
+		w = res.Final
+	}
+	for _, o := range owners {
+		ob := outboxOf(actorID(local, o))
+		if !tainted[ob] {
+			em.history(init[ob], accepted[ob], listing(w.Outboxes[ob]))
+		}
+	}
+	return
+}
